@@ -573,4 +573,201 @@ theorem prodItem_dflt_right {T U M A B : Type} (I : Item T M A) (J : Item U M B)
   show (I.op a.1 (I.val I.dflt), J.op a.2 (J.val J.dflt)) = a
   rw [h1, h2]
 
+/-! ### element types whose order ignores part of the value (`KV`): the tie rule of `merge` is part of the algebra -/
+
+theorem kv_lt_assoc (a b c : KV) :
+    (if (if a.k < b.k then a else b).k < c.k then (if a.k < b.k then a else b) else c) =
+    (if a.k < (if b.k < c.k then b else c).k then a else (if b.k < c.k then b else c)) := by
+  by_cases h1 : a.k < b.k <;> by_cases h2 : b.k < c.k <;> by_cases h3 : a.k < c.k <;> simp [h1, h2, h3] <;> omega
+
+theorem kv_gt_assoc (a b c : KV) :
+    (if (if a.k > b.k then a else b).k > c.k then (if a.k > b.k then a else b) else c) =
+    (if a.k > (if b.k > c.k then b else c).k then a else (if b.k > c.k then b else c)) := by
+  by_cases h1 : a.k > b.k <;> by_cases h2 : b.k > c.k <;> by_cases h3 : a.k > c.k <;> simp [h1, h2, h3] <;> omega
+
+theorem kvAdd_zero (a : KV) : kvAdd a kvZero = a := by
+  cases a; simp [kvAdd, kvZero]
+
+theorem kvAdd_assoc (a b c : KV) : kvAdd a (kvAdd b c) = kvAdd (kvAdd a b) c := by
+  simp [kvAdd, Int.add_assoc]
+
+theorem kvAdd_lt (a b m : KV) :
+    kvAdd (if a.k < b.k then a else b) m = (if (kvAdd a m).k < (kvAdd b m).k then kvAdd a m else kvAdd b m) := by
+  by_cases h : a.k < b.k
+  · rw [if_pos h, if_pos (by show a.k + m.k < b.k + m.k; omega)]
+  · rw [if_neg h, if_neg (by show ¬ a.k + m.k < b.k + m.k; omega)]
+
+theorem kvAdd_gt (a b m : KV) :
+    kvAdd (if a.k > b.k then a else b) m = (if (kvAdd a m).k > (kvAdd b m).k then kvAdd a m else kvAdd b m) := by
+  by_cases h : a.k > b.k
+  · rw [if_pos h, if_pos (by show a.k + m.k > b.k + m.k; omega)]
+  · rw [if_neg h, if_neg (by show ¬ a.k + m.k > b.k + m.k; omega)]
+
+theorem minKItem_lawful (d : KV) : Lawful (minKItem d) where
+  op_assoc := kv_lt_assoc
+  act_op := by intro m a b; rfl
+  pa_op := by intro x a b; rfl
+  val_merge := by intro x y; rfl
+  pa_merge := by intro x y a; rfl
+  val_update := by intro _ x y; rfl
+  pa_update := by intro _ x y a; rfl
+  val_modify := by intro x m; rfl
+  pa_modify := by intro x m a; rfl
+  push_val0 := by intro p l r; rfl
+  push_pa0 := by intro p l r a; rfl
+  push_val1 := by intro p l r; rfl
+  push_pa1 := by intro p l r a; rfl
+  push_val2 := by intro p l r; rfl
+  push_pa2 := by intro p l r a; rfl
+
+theorem maxKItem_lawful (d : KV) : Lawful (maxKItem d) where
+  op_assoc := kv_gt_assoc
+  act_op := by intro m a b; rfl
+  pa_op := by intro x a b; rfl
+  val_merge := by intro x y; rfl
+  pa_merge := by intro x y a; rfl
+  val_update := by intro _ x y; rfl
+  pa_update := by intro _ x y a; rfl
+  val_modify := by intro x m; rfl
+  pa_modify := by intro x m a; rfl
+  push_val0 := by intro p l r; rfl
+  push_pa0 := by intro p l r a; rfl
+  push_val1 := by intro p l r; rfl
+  push_pa1 := by intro p l r a; rfl
+  push_val2 := by intro p l r; rfl
+  push_pa2 := by intro p l r a; rfl
+
+theorem minAddKItem_lawful (d : KV) : Lawful (minAddKItem d) where
+  op_assoc := kv_lt_assoc
+  act_op := by intro m a b; exact kvAdd_lt a b m
+  pa_op := by intro x a b; exact kvAdd_lt a b x.md
+  val_merge := by intro x y; rfl
+  pa_merge := by intro x y a; exact kvAdd_zero a
+  val_update := by intro _ x y; rfl
+  pa_update := by intro _ x y a; exact kvAdd_zero a
+  val_modify := by intro x m; rfl
+  pa_modify := by intro x m a; exact kvAdd_assoc a x.md m
+  push_val0 := by intro p l r; rfl
+  push_pa0 := by intro p l r a; exact kvAdd_zero a
+  push_val1 := by intro p l r; rfl
+  push_pa1 := by intro p l r a; exact kvAdd_assoc a l.md p.md
+  push_val2 := by intro p l r; rfl
+  push_pa2 := by intro p l r a; exact kvAdd_assoc a r.md p.md
+
+theorem maxAddKItem_lawful (d : KV) : Lawful (maxAddKItem d) where
+  op_assoc := kv_gt_assoc
+  act_op := by intro m a b; exact kvAdd_gt a b m
+  pa_op := by intro x a b; exact kvAdd_gt a b x.md
+  val_merge := by intro x y; rfl
+  pa_merge := by intro x y a; exact kvAdd_zero a
+  val_update := by intro _ x y; rfl
+  pa_update := by intro _ x y a; exact kvAdd_zero a
+  val_modify := by intro x m; rfl
+  pa_modify := by intro x m a; exact kvAdd_assoc a x.md m
+  push_val0 := by intro p l r; rfl
+  push_pa0 := by intro p l r a; exact kvAdd_zero a
+  push_val1 := by intro p l r; rfl
+  push_pa1 := by intro p l r a; exact kvAdd_assoc a l.md p.md
+  push_val2 := by intro p l r; rfl
+  push_pa2 := by intro p l r a; exact kvAdd_assoc a r.md p.md
+
+/-- the fold of `Min::merge` over equal keys returns the LAST element (ties go to the right operand) … -/
+theorem minK_tie_right (d a b : KV) (h : a.k = b.k) : (minKItem d).op a b = b := by
+  show (if a.k < b.k then a else b) = b
+  rw [if_neg (by omega)]
+
+/-- … so an `update` that keeps the LEFT operand on a tie (`if right.v < left.v { right } else { left }`) does not
+    observe the merge of the children: it is not a lawful override -/
+theorem minK_left_tie_update_not_lawful (d : KV) :
+    ¬ Lawful { minKItem d with update := fun _ l r => if r.k < l.k then r else l } := by
+  intro L
+  have h : (if (1 : Int) < 1 then (⟨1, 1⟩ : KV) else ⟨1, 0⟩) = (if (1 : Int) < 1 then (⟨1, 0⟩ : KV) else ⟨1, 1⟩) :=
+    L.val_update ⟨0, 0⟩ ⟨1, 0⟩ ⟨1, 1⟩
+  revert h
+  decide
+
+/-- `Default` of the keyed min / max items: a left identity on every element whose key does not exceed the default's
+    (ties return the right operand, i.e. the element), a right identity on the elements strictly inside -/
+theorem minKItem_dflt_left (d a : KV) (h : a.k ≤ d.k) : (minKItem d).op ((minKItem d).val (minKItem d).dflt) a = a := by
+  show (if d.k < a.k then d else a) = a
+  rw [if_neg (by omega)]
+theorem minKItem_dflt_right (d a : KV) (h : a.k < d.k ∨ a = d) : (minKItem d).op a ((minKItem d).val (minKItem d).dflt) = a := by
+  show (if a.k < d.k then a else d) = a
+  rcases h with h | h
+  · rw [if_pos h]
+  · subst h; rw [if_neg (by omega)]
+theorem maxKItem_dflt_left (d a : KV) (h : d.k ≤ a.k) : (maxKItem d).op ((maxKItem d).val (maxKItem d).dflt) a = a := by
+  show (if d.k > a.k then d else a) = a
+  rw [if_neg (by omega)]
+theorem maxKItem_dflt_right (d a : KV) (h : a.k > d.k ∨ a = d) : (maxKItem d).op a ((maxKItem d).val (maxKItem d).dflt) = a := by
+  show (if a.k > d.k then a else d) = a
+  rcases h with h | h
+  · rw [if_pos h]
+  · subst h; rw [if_neg (by omega)]
+theorem minAddKItem_dflt_left (d a : KV) (h : a.k ≤ d.k) :
+    (minAddKItem d).op ((minAddKItem d).val (minAddKItem d).dflt) a = a := minKItem_dflt_left d a h
+theorem minAddKItem_dflt_right (d a : KV) (h : a.k < d.k ∨ a = d) :
+    (minAddKItem d).op a ((minAddKItem d).val (minAddKItem d).dflt) = a := minKItem_dflt_right d a h
+theorem maxAddKItem_dflt_left (d a : KV) (h : d.k ≤ a.k) :
+    (maxAddKItem d).op ((maxAddKItem d).val (maxAddKItem d).dflt) a = a := maxKItem_dflt_left d a h
+theorem maxAddKItem_dflt_right (d a : KV) (h : a.k > d.k ∨ a = d) :
+    (maxAddKItem d).op a ((maxAddKItem d).val (maxAddKItem d).dflt) = a := maxKItem_dflt_right d a h
+
+/-- a default ABOVE the type's minimum (what `MinMax::MIN = MIN_POSITIVE` is for floats) is not an identity of `Max` on the
+    elements below it: the search shows the predicate the seed instead of the range maximum -/
+theorem maxKItem_dflt_not_identity (d a : KV) (h : a.k < d.k) (hne : a ≠ d) :
+    (maxKItem d).op ((maxKItem d).val (maxKItem d).dflt) a ≠ a := by
+  show (if d.k > a.k then d else a) ≠ a
+  rw [if_pos h]; exact fun e => hne e.symm
+
+theorem catSumItem_lawful : Lawful catSumItem where
+  op_assoc := List.append_assoc
+  act_op := by intro m a b; rfl
+  pa_op := by intro x a b; rfl
+  val_merge := by intro x y; rfl
+  pa_merge := by intro x y a; rfl
+  val_update := by intro _ x y; rfl
+  pa_update := by intro _ x y a; rfl
+  val_modify := by intro x m; rfl
+  pa_modify := by intro x m a; rfl
+  push_val0 := by intro p l r; rfl
+  push_pa0 := by intro p l r a; rfl
+  push_val1 := by intro p l r; rfl
+  push_pa1 := by intro p l r a; rfl
+  push_val2 := by intro p l r; rfl
+  push_pa2 := by intro p l r a; rfl
+
+theorem catSumItem_dflt (a : List Nat) :
+    catSumItem.op (catSumItem.val catSumItem.dflt) a = a ∧ catSumItem.op a (catSumItem.val catSumItem.dflt) = a :=
+  ⟨rfl, List.append_nil a⟩
+
+/-! ### the float formats: the constants the driver prints are the IEEE bit patterns -/
+
+theorem f64_consts : f64Fmt.maxBits = 0x7FEFFFFFFFFFFFFF ∧ f64Fmt.minBits = 0xFFEFFFFFFFFFFFFF ∧
+    f64Fmt.oneBits = 0x3FF0000000000000 ∧ f64Fmt.infBits = 0x7FF0000000000000 := by decide
+
+theorem f32_consts : f32Fmt.maxBits = 0x7F7FFFFF ∧ f32Fmt.minBits = 0xFF7FFFFF ∧
+    f32Fmt.oneBits = 0x3F800000 ∧ f32Fmt.infBits = 0x7F800000 := by decide
+
+/-- `ordKey` identifies exactly the two zeros, is increasing on the non-negative patterns and decreasing on the negative ones -/
+theorem ordKey_zeros (f : FloatFmt) : f.ordKey 0 = 0 ∧ f.ordKey f.signBit = 0 := by
+  constructor
+  · show (if 0 < f.signBit then ((0 : Nat) : Int) else _) = 0
+    have : 0 < f.signBit := Nat.pos_of_ne_zero (by unfold FloatFmt.signBit; exact Nat.ne_of_gt (Nat.two_pow_pos _))
+    rw [if_pos this]; rfl
+  · show (if f.signBit < f.signBit then _ else -((f.signBit - f.signBit : Nat) : Int)) = 0
+    rw [if_neg (by omega)]; simp
+
+theorem ordKey_mono_pos (f : FloatFmt) (a b : Nat) (hb : b < f.signBit) (h : a < b) : f.ordKey a < f.ordKey b := by
+  unfold FloatFmt.ordKey
+  rw [if_pos (by omega), if_pos hb]; omega
+
+theorem ordKey_anti_neg (f : FloatFmt) (a b : Nat) (ha : f.signBit ≤ a) (h : a < b) : f.ordKey b < f.ordKey a := by
+  unfold FloatFmt.ordKey
+  rw [if_neg (by omega), if_neg (by omega)]; omega
+
+theorem ordKey_neg_le_pos (f : FloatFmt) (a b : Nat) (ha : f.signBit ≤ a) (hb : b < f.signBit) : f.ordKey a ≤ f.ordKey b := by
+  unfold FloatFmt.ordKey
+  rw [if_neg (by omega), if_pos hb]; omega
+
 end Rlib.Segtree
